@@ -1,11 +1,13 @@
 import Driver.KV
 import Driver.Codec
 import Driver.Parsers
+import Driver.Cluster
 open Driver
 
 structure World where
   kv : St := {}
   ps : PSt := {}
+  cs : CSt := {}
 
 def step (w : World) (line : String) : World × String :=
   match words line with
@@ -19,7 +21,10 @@ def step (w : World) (line : String) : World × String :=
       | none =>
         match parsersStep w.ps op args with
         | some (ps', out) => ({ w with ps := ps' }, out)
-        | none => (w, "bad-op")
+        | none =>
+          match clusterStep w.cs w.kv.now op args with
+          | some (cs', out) => ({ w with cs := cs' }, out)
+          | none => (w, "bad-op")
 
 partial def loop (hin hout : IO.FS.Stream) (w : World) : IO Unit := do
   let line ← hin.getLine
